@@ -1066,3 +1066,283 @@ Example unknown_charset_falls_back :
   = Some (s_utf8, CodecReplace s_utf8 [104])
   /\ query_of [104;58;47;47;91;70;93;64;104;47;112;63;97;61;49;38;98;35;102;63;120] = [97;61;49;38;98].
 Proof. split; reflexivity. Qed.
+
+(* ------------------------------------------------------------------ *)
+(* Part 5: lifecycle of the writer thread up to process exit            *)
+(* ------------------------------------------------------------------ *)
+Lemma writer_loop_step w m q out :
+  writer_loop_gen entry_raises w (m :: q) out =
+  match writer_item w m out with
+  | (out1, None) => writer_loop_gen entry_raises w q out1
+  | (out1, Some e) => (out1, e)
+  end.
+Proof.
+  destruct m as [|ints|]; cbn [writer_loop_gen writer_item]; try reflexivity.
+  destruct (write_entries_gen entry_raises w ints out) as [o ok]. destruct ok; reflexivity.
+Qed.
+
+Lemma drain_loop w : forall q out,
+  writer_loop_gen entry_raises w q out =
+  (fst (drain true w q out), match snd (drain true w q out) with Some e => e | None => Waiting end).
+Proof.
+  induction q as [|m q IH]; intros out.
+  - reflexivity.
+  - rewrite writer_loop_step. cbn [drain writer_take].
+    destruct (writer_item w m out) as [o [e|]]; [reflexivity | apply IH].
+Qed.
+
+Lemma drain_finalize op w : forall q out, exists o e, drain op w (q ++ [QFinalize]) out = (o, Some e).
+Proof.
+  induction q as [|m q IH]; intros out.
+  - cbn [app drain]. destruct op; cbn [writer_take writer_item writer_item_closed].
+    + exists out, Closed. reflexivity.
+    + destruct (w_fmt w); [exists out, Closed | exists out, Died]; reflexivity.
+  - cbn [app drain]. destruct (writer_take op w m out) as [o [e|]].
+    + exists o, e. reflexivity.
+    + apply IH.
+Qed.
+
+Definition linv (w : wconf) (h : list cevent) (st : lstate) : Prop :=
+  (l_phase st <> MRun -> l_todo st = []) /\
+  (l_open st = true ->
+     match l_writer st with
+     | LRunning => writer_loop_gen entry_raises w (l_queue st ++ l_todo st) (l_out st) = written w h
+     | LEnded e => (l_out st, e) = written w h
+     | LKilled => True
+     end) /\
+  (l_phase st <> MExited -> l_open st = true /\ l_writer st <> LKilled).
+
+Lemma linv_init w h : linv w h (linit h).
+Proof.
+  unfold linv, linit; cbn. repeat split; try congruence.
+Qed.
+
+Ltac lfin := intros; try congruence; try assumption; auto.
+Ltac lproj := cbn [l_phase l_todo l_queue l_out l_writer l_open].
+
+Lemma linv_exit c w h st : l_phase st = MTeardown -> linv w h st -> linv w h (exit_step c w st).
+Proof.
+  intros Hp (Htodo & Hrun & Hlive).
+  assert (Ht : l_todo st = []) by (apply Htodo; congruence).
+  destruct Hlive as [Hopen Hnk]; [congruence|].
+  specialize (Hrun Hopen).
+  unfold exit_step. rewrite Hopen. cbn [andb].
+  destruct (l_writer st) as [|e|] eqn:Ew.
+  - destruct (lc_daemon c).
+    + unfold linv; lproj. repeat split; lfin.
+    + destruct (drain (negb (lc_click_owned c)) w (l_queue st) (l_out st)) as [o [e|]] eqn:Ed.
+      * unfold linv; lproj. repeat split; lfin.
+        match goal with Ho : negb _ = true |- _ => rewrite Ho in Ed end.
+        rewrite Ht, app_nil_r, drain_loop, Ed in Hrun. exact Hrun.
+      * unfold linv. rewrite Ew. repeat split; lfin.
+  - unfold linv; lproj. repeat split; lfin.
+  - congruence.
+Qed.
+
+Lemma linv_step c w h st s : linv w h st -> linv w h (lstep c w st s).
+Proof.
+  intros Hinv. destruct s; cbn [lstep].
+  - (* SMain *)
+    destruct (l_phase st) eqn:Hp.
+    + destruct (l_todo st) as [|m t] eqn:Ht.
+      * destruct (l_writer st) eqn:Ew; [exact Hinv | |].
+        -- destruct Hinv as (Htodo & Hrun & Hlive). rewrite Ew in Hrun. destruct Hlive as [Hopen Hnk]; [congruence|].
+           unfold linv, set_phase; lproj. rewrite Ew. repeat split; lfin.
+        -- destruct Hinv as (_ & _ & Hlive). destruct Hlive as [_ Hnk]; [congruence|]. congruence.
+      * destruct Hinv as (Htodo & Hrun & Hlive). destruct Hlive as [Hopen Hnk]; [congruence|].
+        specialize (Hrun Hopen). rewrite Ht in Hrun.
+        unfold linv; lproj. repeat split; lfin.
+        rewrite <- app_assoc. cbn [app]. exact Hrun.
+    + apply linv_exit; assumption.
+    + try rewrite Hp; try (destruct (l_todo st)); exact Hinv.
+  - (* SWriter *)
+    destruct (l_writer st) eqn:Ew; try exact Hinv.
+    destruct (l_queue st) as [|m q'] eqn:Eq; [try rewrite Ew; exact Hinv|].
+    destruct Hinv as (Htodo & Hrun & Hlive). rewrite Ew, Eq in Hrun.
+    destruct (writer_take (l_open st) w m (l_out st)) as [o e] eqn:Et.
+    unfold linv; lproj. repeat split; lfin.
+    + match goal with Ho : l_open st = true |- _ => specialize (Hrun Ho); rewrite Ho in Et end.
+      cbn [app] in Hrun. rewrite writer_loop_step in Hrun. cbn [writer_take] in Et. rewrite Et in Hrun.
+      destruct e; exact Hrun.
+    + apply Hlive. assumption.
+    + destruct e; congruence.
+  - (* STimeout *)
+    destruct (l_phase st) eqn:Hp; try (try rewrite Hp; exact Hinv).
+    destruct (l_todo st) eqn:Ht; [|try rewrite Hp; exact Hinv].
+    destruct Hinv as (Htodo & Hrun & Hlive). destruct Hlive as [Hopen Hnk]; [congruence|].
+    unfold linv, set_phase; lproj. repeat split; lfin. apply Hrun. assumption.
+Qed.
+
+Lemma fold_inv (P : lstate -> Prop) c w :
+  (forall st s, P st -> P (lstep c w st s)) -> forall sched st, P st -> P (fold_left (lstep c w) sched st).
+Proof.
+  intros Hstep. induction sched as [|s sched IH]; intros st H; [exact H|]. cbn [fold_left]. apply IH, Hstep, H.
+Qed.
+
+(* 1. the code as it is with report files of its own (--report / --report-dir) *)
+Definition linv_dir (w : wconf) (h : list cevent) (st : lstate) : Prop :=
+  linv w h st /\ l_open st = true /\ (l_phase st = MExited -> exists e, l_writer st = LEnded e).
+
+Lemma linv_dir_step c w h st s : lc_daemon c = false -> lc_click_owned c = false ->
+  linv_dir w h st -> linv_dir w h (lstep c w st s).
+Proof.
+  intros Hd Ho (Hinv & Hopen & Hex). split; [apply linv_step; exact Hinv|].
+  destruct s; cbn [lstep].
+  - destruct (l_phase st) eqn:Hp.
+    + destruct (l_todo st) as [|m t].
+      * destruct (l_writer st); unfold set_phase; cbn; split; try assumption; try congruence.
+      * cbn. split; [assumption | congruence].
+    + unfold exit_step. rewrite Hd, Ho, Hopen. cbn [andb negb].
+      destruct Hinv as (_ & _ & Hlive). destruct Hlive as [_ Hnk]; [congruence|].
+      destruct (l_writer st) as [|e|] eqn:Ew.
+      * destruct (drain true w (l_queue st) (l_out st)) as [o [e|]]; cbn.
+        -- split; [reflexivity|]. intros _. exists e. reflexivity.
+        -- split; [assumption|]. congruence.
+      * cbn. split; [reflexivity|]. intros _. exists e. reflexivity.
+      * congruence.
+    + try rewrite Hp; try (destruct (l_todo st)); split; assumption.
+  - destruct (l_writer st) eqn:Ew; try (rewrite Ew; split; assumption).
+    destruct (l_queue st) as [|m q'] eqn:Eq; [rewrite Ew; split; assumption|].
+    destruct (writer_take (l_open st) w m (l_out st)) as [o e]. cbn. split; [assumption|].
+    intros Hp. destruct (Hex Hp) as [e' He']. congruence.
+  - destruct (l_phase st) eqn:Hp; try (try rewrite Hp; split; assumption).
+    destruct (l_todo st); [|try rewrite Hp; split; assumption].
+    unfold set_phase; cbn. split; [assumption | congruence].
+Qed.
+
+Lemma lexited_phase st : lexited st = true -> l_phase st = MExited.
+Proof. unfold lexited. destruct (l_phase st); congruence. Qed.
+
+Lemma exit_flushes_backlog c w h sched : lc_daemon c = false -> report_dir_owned c = true ->
+  lexited (lrun c w h sched) = true ->
+  lresult (lrun c w h sched) = (fst (written w h), LEnded (snd (written w h))).
+Proof.
+  intros Hd Ho Hex. unfold report_dir_owned in Ho. apply negb_true_iff in Ho.
+  assert (H : linv_dir w h (lrun c w h sched)).
+  { unfold lrun. apply fold_inv.
+    - intros st s. apply linv_dir_step; assumption.
+    - split; [apply linv_init|]. cbn. split; [reflexivity | congruence]. }
+  destruct H as ((_ & Hrun & _) & Hopen & Hend).
+  destruct (Hend (lexited_phase _ Hex)) as [e He]. specialize (Hrun Hopen). rewrite He in Hrun.
+  unfold lresult. rewrite He, <- Hrun. reflexivity.
+Qed.
+
+Lemma report_complete_at_exit_har san pres h sched :
+  lexited (lrun lconf_report_dir {| w_fmt := HAR; w_sanitize := san; w_preserve := pres |} h sched) = true ->
+  lresult (lrun lconf_report_dir {| w_fmt := HAR; w_sanitize := san; w_preserve := pres |} h sched) = (complete (delivered h), LEnded Closed).
+Proof.
+  intros Hex. rewrite exit_flushes_backlog by (reflexivity || exact Hex). rewrite once_har. reflexivity.
+Qed.
+
+Lemma report_complete_at_exit_vcr san pres h sched : no_raising_codec h = true ->
+  lexited (lrun lconf_report_dir {| w_fmt := VCR; w_sanitize := san; w_preserve := pres |} h sched) = true ->
+  lresult (lrun lconf_report_dir {| w_fmt := VCR; w_sanitize := san; w_preserve := pres |} h sched) = (complete (delivered h), LEnded Closed).
+Proof.
+  intros Hreg Hex. rewrite exit_flushes_backlog by (reflexivity || exact Hex). rewrite once_vcr by exact Hreg. reflexivity.
+Qed.
+
+(* 2. every configuration (daemon or not, Click-owned or not): when no join timed out *)
+Definition linv_join (w : wconf) (h : list cevent) (st : lstate) : Prop :=
+  linv w h st /\ (l_phase st <> MRun -> exists e, l_writer st = LEnded e /\ (l_out st, e) = written w h).
+
+Lemma linv_join_step c w h st s : is_timeout s = false -> linv_join w h st -> linv_join w h (lstep c w st s).
+Proof.
+  intros Hs (Hinv & Hj). split; [apply linv_step; exact Hinv|].
+  destruct s; cbn [lstep]; [| |discriminate Hs].
+  - destruct (l_phase st) eqn:Hp.
+    + destruct (l_todo st) as [|m t].
+      * destruct Hinv as (_ & Hrun & Hlive). destruct Hlive as [Hopen Hnk]; [congruence|].
+        destruct (l_writer st) as [|e|] eqn:Ew.
+        -- try rewrite Hp. congruence.
+        -- unfold set_phase; lproj. intros _. exists e. split; [exact Ew|]. exact (Hrun Hopen).
+        -- congruence.
+      * lproj. congruence.
+    + destruct Hj as (e & Hw & Hres); [congruence|]. unfold exit_step. rewrite Hw. lproj. intros _. exists e. split; [reflexivity | exact Hres].
+    + try rewrite Hp; try (destruct (l_todo st)); exact Hj.
+  - destruct (l_writer st) eqn:Ew; try (rewrite Ew; exact Hj).
+    destruct (l_queue st) as [|m q'] eqn:Eq; [rewrite Ew; exact Hj|].
+    destruct (writer_take (l_open st) w m (l_out st)) as [o e]. lproj. intros Hp.
+    destruct (Hj Hp) as (e' & He' & _). congruence.
+Qed.
+
+Lemma join_returned_then_complete c w h sched : join_never_timed_out sched = true ->
+  lexited (lrun c w h sched) = true ->
+  lresult (lrun c w h sched) = (fst (written w h), LEnded (snd (written w h))).
+Proof.
+  intros Hs Hex.
+  assert (H : forall sched st, join_never_timed_out sched = true -> linv_join w h st -> linv_join w h (fold_left (lstep c w) sched st)).
+  { induction sched0 as [|s sched0 IH]; intros st Hn Hst; [exact Hst|].
+    cbn [join_never_timed_out forallb] in Hn. apply andb_true_iff in Hn. destruct Hn as [Hn1 Hn2].
+    cbn [fold_left]. apply IH; [exact Hn2|]. apply linv_join_step; [apply negb_true_iff; exact Hn1 | exact Hst]. }
+  specialize (H sched (linit h) Hs). destruct H as (_ & Hj).
+  - split; [apply linv_init|]. cbn. congruence.
+  - fold (lrun c w h sched) in Hj. destruct Hj as (e & Hw & Hres).
+    + rewrite (lexited_phase _ Hex). congruence.
+    + unfold lresult. rewrite Hw, <- Hres. reflexivity.
+Qed.
+
+(* 3. the exit is reachable with the WHOLE backlog unwritten when the join times out *)
+Lemma feed_all c w : forall todo q out wr op,
+  fold_left (lstep c w) (map (fun _ => SMain) todo)
+    {| l_todo := todo; l_phase := MRun; l_queue := q; l_out := out; l_writer := wr; l_open := op |} =
+    {| l_todo := []; l_phase := MRun; l_queue := q ++ todo; l_out := out; l_writer := wr; l_open := op |}.
+Proof.
+  induction todo as [|m t IH]; intros q out wr op.
+  - cbn. rewrite app_nil_r. reflexivity.
+  - cbn [map fold_left lstep l_phase l_todo l_queue l_out l_writer l_open]. rewrite IH, <- app_assoc. reflexivity.
+Qed.
+
+Lemma exit_reachable_with_full_backlog c w h :
+  l_queue (lrun c w h (map (fun _ => SMain) (cassette_queue h) ++ [STimeout])) = cassette_queue h
+  /\ l_out (lrun c w h (map (fun _ => SMain) (cassette_queue h) ++ [STimeout])) = []
+  /\ lexited (lrun c w h (sched_full_backlog h)) = true.
+Proof.
+  unfold lrun, sched_full_backlog, linit. rewrite !fold_left_app, feed_all. cbn [app fold_left lstep set_phase l_phase l_todo l_queue l_out l_writer l_open].
+  repeat split.
+  unfold set_phase, exit_step; lproj. unfold lexited. cbn [andb].
+  destruct (lc_daemon c); [reflexivity|].
+  unfold cassette_queue. rewrite app_comm_cons.
+  destruct (drain_finalize (negb (lc_click_owned c)) w (QInit :: flat_map (fun e => match e with CScenario ints => [QProcess ints] | COther => [] end) h) []) as (o & e & Hd).
+  rewrite Hd. reflexivity.
+Qed.
+
+(* witnesses *)
+Definition h_three : list cevent := [CScenario [i_plain 1]; CScenario [i_plain 2]; CScenario [i_plain 3]].
+(* everything is put (Initialize, three Process, Finalize), the writer gets as far as the first exchange, the join times out, exit *)
+Definition sched_slow_writer : list sstep := [SMain; SMain; SMain; SMain; SMain; SWriter; SWriter; STimeout; SMain].
+Definition lconf_daemon : lconf := {| lc_daemon := true; lc_click_owned := false |}.
+
+Lemma click_owned_loses_backlog :
+  delivered h_three = [1; 2; 3]
+  /\ lexited (lrun lconf_report_path vcr_default h_three sched_slow_writer) = true
+  /\ lresult (lrun lconf_report_path vcr_default h_three sched_slow_writer) = ([(1, true)], LEnded Died)
+  /\ lresult (lrun lconf_report_path har_sanitized h_three sched_slow_writer) = ([(1, true)], LEnded Died)
+  /\ lresult (lrun lconf_report_dir vcr_default h_three sched_slow_writer) = (complete [1; 2; 3], LEnded Closed)
+  /\ lresult (lrun lconf_report_dir har_sanitized h_three sched_slow_writer) = (complete [1; 2; 3], LEnded Closed).
+Proof. vm_compute. repeat split; reflexivity. Qed.
+
+Lemma exit_flushes_backlog_refuted_ex : exists w h sched i,
+  lexited (lrun lconf_report_path w h sched) = true /\ In i (delivered h)
+  /\ ~ In i (map fst (fst (lresult (lrun lconf_report_path w h sched))))
+  /\ snd (lresult (lrun lconf_report_path w h sched)) = LEnded Died.
+Proof.
+  exists vcr_default, h_three, sched_slow_writer, 3. vm_compute. repeat split; try reflexivity.
+  - right; right; left; reflexivity.
+  - intros [H|[]]. discriminate H.
+Qed.
+
+Lemma daemon_writer_loses_backlog :
+  lexited (lrun lconf_daemon vcr_default h_three sched_slow_writer) = true
+  /\ lresult (lrun lconf_daemon vcr_default h_three sched_slow_writer) = ([(1, true)], LKilled)
+  /\ lresult (lrun lconf_daemon har_sanitized h_three sched_slow_writer) = ([(1, true)], LKilled)
+  /\ lresult (lrun lconf_daemon vcr_default h_three (sched_full_backlog h_three)) = ([], LKilled)
+  /\ lresult (lrun lconf_report_dir vcr_default h_three (sched_full_backlog h_three)) = (complete [1; 2; 3], LEnded Closed)
+  /\ lc_daemon lconf_report_dir = false /\ lc_daemon lconf_report_path = false.
+Proof. vm_compute. repeat split; reflexivity. Qed.
+
+(* non-vacuity of the join region: a schedule without a timeout that exits, on a history with a backlog *)
+Example join_region_nonvacuous :
+  join_never_timed_out [SMain; SMain; SWriter; SMain; SMain; SWriter; SMain; SWriter; SWriter; SWriter; SMain; SMain] = true
+  /\ lexited (lrun lconf_daemon vcr_default h_three [SMain; SMain; SWriter; SMain; SMain; SWriter; SMain; SWriter; SWriter; SWriter; SMain; SMain]) = true
+  /\ lresult (lrun lconf_daemon vcr_default h_three [SMain; SMain; SWriter; SMain; SMain; SWriter; SMain; SWriter; SWriter; SWriter; SMain; SMain]) = (complete [1; 2; 3], LEnded Closed).
+Proof. vm_compute. repeat split; reflexivity. Qed.
